@@ -16,6 +16,8 @@
 
 int main(int argc, char **argv) {
     FILE *in = stdin;
+    static char obuf[1 << 16];
+    setvbuf(stdout, obuf, _IOFBF, sizeof(obuf));   /* no heap use by stdio inside a case (S-connp measures the live heap around each case) */
     if (argc > 1) { in = fopen(argv[1], "r"); if (!in) { perror(argv[1]); return 2; } }
     char *line = NULL; size_t cap = 0; ssize_t n;
     static char *f[4096];
